@@ -9,7 +9,7 @@ def readValidator (s : String) : Option Validator :=
   | "str" => some .str | "url" => some .url | "int" => some .int | "bool" => some .bool
   | "listStr" => some .listStr | "jwk" => some .jwk | "none" => some .unsupported
   | _ => if s.startsWith "choices=" then
-      ((s.drop 8).toString.splitOn "+").mapM hexToStr |>.map Validator.choices
+      ((s.drop 8).toString.splitOn "+").mapM hexToStr |>.map (fun cs => Validator.choices cs false)
     else none
 
 /-- `-` or `;`-separated `hexname:validator:0|1`. -/
